@@ -46,4 +46,18 @@ def run(ctx):
     return report
 
 
-# generators are added below, one per Gen file -------------------------------------------------
+# generators live in tools/genmods/<name>.py (auto-discovered); each defines functions decorated
+# with @gen.generator that call gen.read(...) and gen.write_if_changed('GenX.v', text)
+def _discover():
+    import importlib
+    import glob as _g
+    import sys as _s
+    here = os.path.dirname(os.path.abspath(__file__))
+    _s.modules.setdefault('gen', _s.modules[__name__])
+    for f in sorted(_g.glob(here + '/genmods/*.py')):
+        name = os.path.basename(f)[:-3]
+        if name != '__init__':
+            importlib.import_module('genmods.' + name)
+
+
+_discover()
